@@ -1,0 +1,8 @@
+//go:build !verif
+
+// Package verifhook provides named yield points for schedule-perturbing
+// verification harnesses. Without the "verif" build tag they compile to nothing.
+package verifhook
+
+// At marks a yield point. It does nothing unless built with the "verif" tag.
+func At(point string) {}
